@@ -28,6 +28,7 @@ import (
 	"mime"
 	"mime/multipart"
 	"net/http"
+	"net/http/httputil"
 	"net/url"
 	"strings"
 	"sync"
@@ -769,9 +770,16 @@ func postData(req *http.Request, logBody bool) (*PostData, error) {
 		return nil, err
 	}
 
-	br, err := mv.BodyReader()
+	rbr, err := mv.BodyReader()
 	if err != nil {
 		return nil, err
+	}
+
+	// The snapshot holds the body as it is framed on the wire. The post data is
+	// the body itself (still content-encoded), so remove the chunk framing.
+	var br io.Reader = rbr
+	if tec := len(req.TransferEncoding); tec > 0 && req.TransferEncoding[tec-1] == "chunked" {
+		br = httputil.NewChunkedReader(rbr)
 	}
 
 	switch mt {
